@@ -520,20 +520,26 @@ def rule_files(draw, force_unit: bool = False) -> dict:
 def corrupted_files(draw) -> dict:
     base = draw(rule_files(force_unit=True))
     tokens = rules.tokenize("\n".join(base["files"]))
-    index = draw(st.integers(0, len(tokens) - 1))
-    mutation = draw(st.sampled_from(["delete", "duplicate", "swap", "replace", "insert_paren", "insert_op"]))
-    if mutation == "delete":
-        tokens = tokens[:index] + tokens[index + 1:]
-    elif mutation == "duplicate":
-        tokens = tokens[:index + 1] + tokens[index:]
-    elif mutation == "swap" and index + 1 < len(tokens):
-        tokens[index], tokens[index + 1] = tokens[index + 1], tokens[index]
-    elif mutation == "replace":
-        tokens[index] = draw(st.sampled_from(tokens + ["and", "or", "not", "(", ")", ",", "cds", "minimum", "[", "]"]))
-    elif mutation == "insert_paren":
-        tokens.insert(index, draw(st.sampled_from(["(", ")"])))
-    else:
-        tokens.insert(index, draw(st.sampled_from(["and", "or", "not"])))
+    names = []
+    for _ in range(draw(st.sampled_from([1, 1, 1, 2, 3]))):      # mostly one corruption, sometimes two or three
+        if not tokens:
+            break
+        index = draw(st.integers(0, len(tokens) - 1))
+        mutation = draw(st.sampled_from(["delete", "duplicate", "swap", "replace", "insert_paren", "insert_op"]))
+        if mutation == "delete":
+            tokens = tokens[:index] + tokens[index + 1:]
+        elif mutation == "duplicate":
+            tokens = tokens[:index + 1] + tokens[index:]
+        elif mutation == "swap" and index + 1 < len(tokens):
+            tokens[index], tokens[index + 1] = tokens[index + 1], tokens[index]
+        elif mutation == "replace":
+            tokens[index] = draw(st.sampled_from(tokens + ["and", "or", "not", "(", ")", ",", "cds", "minimum", "[", "]"]))
+        elif mutation == "insert_paren":
+            tokens.insert(index, draw(st.sampled_from(["(", ")"])))
+        else:
+            tokens.insert(index, draw(st.sampled_from(["and", "or", "not"])))
+        names.append(mutation)
+    mutation = names[0] if len(names) == 1 else f"{len(names)}_corruptions"
     if not tokens:
         tokens = ["RULE"]
     text = _join(tokens, draw(st.lists(st.integers(0, 4), min_size=3, max_size=10)))
